@@ -179,8 +179,8 @@ class MatchingPropagator:
         # resolve node status
         if path in matching:
             node_ok = True
-        elif children_status:  # compute from children
-            # compute parent success from children
+        elif children_status or isinstance(node, tree.BaseOperation):  # compute from children
+            # compute parent success from children (an operation without operand is all([]) or any([]))
             operator = any if isinstance(node, self.OR_NODES) else all
             node_ok = operator(children_status)
         else:
